@@ -73,6 +73,16 @@ CHECKS["C06"] = dict(
         "cases), <=3 operations. Exceptions are always acceptable for retarget/change ('or raises').",
    technique="TLA+ executable definition + value state machine checked by TLC; exhaustive byte tables and states replayed into code",
    design="6/C06")
+CHECKS["C13"] = dict(
+   text="spec/Windows.tla defines, per row, k-mers (as the base-|A| digits of their code), minimisers, string matches, integer motif "
+        "scores and k-mer counts; MC_C13 grows a ragged collection letter by letter so that every list of <=3 rows of <=4 letters is a "
+        "state (empty rows, rows of length w-1, w, w+1, short last row), checks row locality, window counts and the locality action "
+        "property, and prints every state with all values for windows 1..W; every state is replayed on five alphabets (bit-packed "
+        "and generic path), as fresh arrays and as re-ordered views. Larger random rows with k up to 31 are recorded and validated by "
+        "TLC against the same definitions (Trace_C13).",
+   note=TB + "Bounds: quick 2 rows x <=4 letters, W=4; thorough 3 rows, W=5; binding B rows up to 80 letters, k up to 31 (14 for the amino alphabet).",
+   technique="TLA+ definitional spec + TLC exhaustive ragged-list states replayed into code; TLC batch validation of recorded calls",
+   design="6/C13")
 PENDING = {}
 def main():
     props = [json.loads(l)["id"] for l in open(os.path.join(HERE, "properties.jsonl"))]
